@@ -3,7 +3,6 @@ package c02
 
 import (
 	"bytes"
-	"context"
 	"errors"
 	"fmt"
 	"io"
@@ -218,7 +217,7 @@ func handle(h logger.Handler, o op) {
 	pc, _, _ := lm.CallerPC()
 	r := slog.NewRecord(o.instant, o.level, o.msg(), pc)
 	r.AddAttrs(lm.Attrs(o.attrs)...)
-	_ = h.Handle(context.Background(), r)
+	_ = h.Handle(lm.CtxFor(o.form, o.msg()), r)
 }
 
 // alone logs one record through a fresh handler with the same chain into a private buffer.
